@@ -55,8 +55,36 @@ class Ctx:
 
     def cfg(self, fi: FuncInfo) -> CFG:
         if fi.qual not in self._cfg:
-            self._cfg[fi.qual] = CFG(fi.node, env=None)
+            self._cfg[fi.qual] = CFG(fi.node, env=None, exc_oracle=self._exc_oracle(fi))
         return self._cfg[fi.qual]
+
+    def _exc_oracle(self, fi: FuncInfo):
+        """class knowledge for the CFG's typed re-raise edges: (name, names of all base classes incl. itself) of an exception class expression"""
+        from .exc import ExcFacts
+        from .core import dotted
+        if not hasattr(self, "_excf"):
+            self._excf = ExcFacts(self)
+        ex = self._excf
+        ctx = self
+
+        class Oracle:
+            def __call__(self, type_expr):
+                nm = dotted(type_expr)
+                if not nm:
+                    return None
+                q = ex.norm(fi.module, nm)
+                if not q:
+                    return None
+                return q, ex.supers(q)
+
+            def related(self, a, b):
+                """some class of the program derives from both"""
+                for cq in ctx.prog.classes:
+                    sup = ex.supers(cq)
+                    if a in sup and b in sup:
+                        return True
+                return False
+        return Oracle()
 
     def facts(self, fi: FuncInfo, kinds="nx"):
         key = fi.qual + "|" + kinds
